@@ -64,24 +64,45 @@ func TestRaceLane(t *testing.T) {
 			continue
 		}
 		fmt.Fprintf(os.Stderr, "CASE %d\n", idx)
-		runCase(c)
+		// the same arguments three times under the real scheduler: the results must be identical
+		first := runCase(c)
+		for rep := 0; rep < 2; rep++ {
+			if again := runCase(c); again != first {
+				fmt.Fprintf(os.Stderr, "DIFF %d %q vs %q\n", idx, clip(first), clip(again))
+				break
+			}
+		}
 		ran++
 	}
 	fmt.Fprintf(os.Stderr, "DONE %d\n", ran)
 }
 
-func runCase(c *props.Case) {
+func clip(s string) string {
+	if len(s) > 300 {
+		return s[:300] + "…"
+	}
+	return s
+}
+
+func runCase(c *props.Case) (result string) {
 	done := make(chan struct{})
 	go func() {
 		defer close(done)
-		defer func() { recover() }()
+		defer func() {
+			if e := recover(); e != nil {
+				result = fmt.Sprint("panic: ", e)
+			}
+		}()
 		switch c.Kind {
 		case "eval":
 			env := interp.NewExecEnv("sim")
 			for _, kv := range c.Vars {
 				env.Set(kv[0], kv[1])
 			}
-			env.Eval(c.Src)
+			n, err := env.Eval(c.Src)
+			x, _ := env.Get("x")
+			y, _ := env.Get("y")
+			result = fmt.Sprintf("%d %v x=%q y=%q", n, err, x.Value, y.Value)
 		case "expand":
 			env := interp.NewExecEnv("sim")
 			for _, kv := range c.Vars {
@@ -93,7 +114,9 @@ func runCase(c *props.Case) {
 			}
 			if cc, ok := cmd.(*ast.Cmd); ok {
 				if sc, ok := cc.Expr.(*ast.SimpleCmd); ok && len(sc.Args) == 2 {
-					env.Expand(sc.Args[1], 0)
+					f, err := env.Expand(sc.Args[1], 0)
+					x, _ := env.Get("x")
+					result = fmt.Sprintf("%q %v x=%q", f, err, x.Value)
 				}
 			}
 		default:
@@ -110,8 +133,11 @@ func runCase(c *props.Case) {
 			}
 			cmds, comments, err := parser.ParseCommands(nil, "sim", src)
 			// touch the results the way a caller would
-			_ = len(cmds) + len(comments)
-			_ = err
+			pos := -1
+			if rs, ok := src.(*gosim.SimReader); ok {
+				pos = rs.Pos()
+			}
+			result = fmt.Sprintf("%s %s %v pos=%d", props.Dump(cmds, 0), props.Dump(comments, 0), err, pos)
 			// a second call on the same reader right away: a lexer left behind by the first one would race with it
 			if rs, ok := src.(*gosim.SimReader); ok && rs.Pos() < len(c.Src) {
 				parser.ParseCommands(nil, "sim", src)
@@ -124,4 +150,5 @@ func runCase(c *props.Case) {
 		fmt.Fprintf(os.Stderr, "HANG\n")
 		os.Exit(3)
 	}
+	return result
 }
